@@ -3,11 +3,12 @@
   [A] theorems: the binding powers used by the parser model ARE the 13 declared levels with their
   associativity (with SqTie.prec_tie this pins them to `lexer.precedence`), and the operator loop
   decides by that table alone.  Counterexamples D7 / D8 (findings) are machine-checked on the
-  model and replayed on the implementation by the monitor.  The full accept ⇔ levelled-grammar
-  theorem (`complete` / `sound`, DESIGN.md §6 C06 [B]) is pending; until then that part of the
-  statement rests on the exhaustive correspondence slices.
+  model and replayed on the implementation by the monitor.  [B] `complete_expr`: completeness of the
+  parser w.r.t. the levelled derivation relation for ALL expressions (unbounded; SqLemmas/ParseComplete).
+  Pending: the statement / program level of `complete`, and the converse `sound`.
 -/
 import Sq.Proto
+import SqLemmas.ParseComplete
 namespace SqProps.C06
 open Sq
 
@@ -55,6 +56,44 @@ theorem binary_below_suffixes (t : Tk) (ht : (binKind t).isSome = true) :
 
 theorem unary_between_suffix_and_index :
     (9 < notLevel ∧ 10 < notLevel ∧ 10 < uminusLevel) ∧ (uminusLevel < 13 ∧ notLevel < 13) := by decide
+
+/-! ### completeness w.r.t. the levelled derivation relation (SqLemmas/ParseSpec.lean)
+
+`RExpr m a ts t b nxt` is the declarative statement of "grammar + operator table": one constructor per
+surface form, the table's side condition `decide'` on every operator a context takes, operands read at
+the operator's own level, suffixes (`.f(…)`, `| f(…)`, `| f`, `[…]`) taken by the same loop, unary minus /
+`not` reading their operand at levels 12 / 11, conditional and lambda bodies at level 0, optional trailing
+commas, redundant parentheses.  The theorem: whatever the relation says reads as `t`, the parser parses
+back to exactly `t` — for every continuation whose first token has the recorded look-ahead type. -/
+
+/-- **complete** (expressions): unbounded — every derivation, any depth, any continuation -/
+theorem complete_expr {m : Nat} {a : Assoc} {ts : List Token} {t : Op} {b : Bool} {nxt : LA}
+    (h : RExpr m a ts t b nxt) :
+    ∃ n, ∀ f, n ≤ f → ∀ tl, peekTy tl = nxt → pExpr f m a (ts ++ tl) = .ok ((t, b), tl) := cExpr h
+
+/-- redundant parentheses never change the tree: if `ts` reads as `e` inside parentheses, then
+    `( ts )` reads as the same `e` wherever a primary may stand -/
+theorem parens_read_as_inner {lp rp : Token} {ts : List Token} {e : Op} {b : Bool} {la : LA}
+    (hl : lp.ty = .LPAREN) (hr : rp.ty = .RPAREN) (h : RExpr 0 .right ts e b (some .RPAREN)) :
+    RPrim (lp :: ts ++ [rp]) e la := RPrim.paren hl h hr
+
+/-- the three call styles denote the same call: `r.f(a…)`, `r | f(a…)` continue the spine with the
+    very tree `f(r, a…)` that the prefix form builds -/
+theorem method_and_pipe_same_tree {m : Nat} {a : Assoc} {l : Op} {b : Bool} {o1 o2 n lp : Token} {lv1 lv2 : Nat}
+    {la1 la2 : Assoc} {tsa rest : List Token} {args : List Op} {t : Op} {bt : Bool} {nxt : LA}
+    (h1 : o1.ty = .DOT) (d1 : decide' m a .DOT = .take lv1 la1) (h2 : o2.ty = .PIPE) (d2 : decide' m a .PIPE = .take lv2 la2)
+    (hn : n.ty = .NAME) (hl : lp.ty = .LPAREN) (ha : RArgs .RPAREN tsa args)
+    (hs : RSpine m a (.call n.val (l :: args)) false rest t bt nxt) :
+    RSpine m a l b (o1 :: n :: lp :: tsa ++ rest) t bt nxt ∧ RSpine m a l b (o2 :: n :: lp :: tsa ++ rest) t bt nxt :=
+  ⟨RSpine.dot h1 d1 hn hl ha hs, RSpine.pipe h2 d2 hn hl ha hs⟩
+
+/-- an operator a context takes continues the spine with its right operand read at the operator's
+    OWN level and associativity: this is "groups by the declared levels and associativity" -/
+theorem operand_read_at_operator_level {m : Nat} {a : Assoc} {l : Op} {b : Bool} {o : Token} {lv : Nat} {la : Assoc}
+    {k : BinK} {tsr rest : List Token} {r : Op} {br : Bool} {t : Op} {bt : Bool} {nxt : LA}
+    (hd : decide' m a o.ty = .take lv la) (hk : binKind o.ty = some k)
+    (he : RExpr lv la tsr r br ((peekTy rest).or nxt)) (hs : RSpine m a (.bin k l r) false rest t bt nxt) :
+    RSpine m a l b (o :: tsr ++ rest) t bt nxt := RSpine.bin hd hk he hs
 
 /-! finite tests inside Lean (labelled as tests, not as the unbounded claim): adjacent-operator
     grouping for a representative of every level pair -/
